@@ -176,12 +176,12 @@ func (c *chatHandler) handleSessionCommand(packet *chat.SessionPlayerCommand, un
 		if !hasLastSeenMessages {
 			return nil
 		}
-		if packet.Signed() {
-			if c.disconnectIllegalProtocolState(c.player) {
-				c.log.Info("A plugin tried to deny a command with signable component(s). This is not supported with forceKeyAuthentication enabled.")
-			}
+		if packet.Signed() && c.disconnectIllegalProtocolState(c.player) {
+			c.log.Info("A plugin tried to deny a command with signable component(s). This is not supported with forceKeyAuthentication enabled.")
 			return nil
 		}
+		// Without forceKeyAuthentication a consumed signed command is dropped like an unsigned
+		// one, and its acknowledgements still have to reach the backend.
 
 		// An unsigned command with a 'last seen' update will not happen as of 1.20.5+, but for earlier versions - we still
 		// need to pass through the acknowledgement. A ChatAcknowledgement only carries an offset, so we must gate on the
@@ -206,6 +206,8 @@ func (c *chatHandler) handleSessionCommand(packet *chat.SessionPlayerCommand, un
 			Message:   "/" + newCommand,
 			Sender:    c.player.ID(),
 			Timestamp: packet.Timestamp,
+			// Keep the 'last seen' update (with the held acknowledgements) of the original.
+			LastSeenMessages: packet.LastSeenMessages,
 		}).ToServer()
 	}
 
